@@ -10,6 +10,8 @@ var units = map[string]common.UnitFunc{
 	"byzorch": unitByzOrch,
 	"c14ctl": unitC14ctl,
 	"c14stress": unitC14stress,
+	"c15": unitC15,
+	"c15ctl": unitC15ctl,
 }
 
 func main() { common.ChildMain(units) }
